@@ -196,8 +196,17 @@ func (m *mux) ensureContext(r *http.Request) *chi.Context {
 	if ctx.RoutePattern() != "" {
 		return ctx // already initialized
 	}
-	if !m.Router.Match(ctx, r.Method, r.URL.Path) {
+	// The request has not been routed yet (e.g. a middleware is running):
+	// resolve the route using a scratch context so that the context chi uses
+	// to route the request is left untouched, and match the same path chi
+	// matches.
+	path := r.URL.RawPath
+	if path == "" {
+		path = r.URL.Path
+	}
+	rctx := chi.NewRouteContext()
+	if !m.Router.Match(rctx, r.Method, path) {
 		return nil // route not handled by chi
 	}
-	return ctx
+	return rctx
 }
